@@ -92,6 +92,10 @@ ConstMenu ==
     [s |-> "Native:05", t |-> TNative, v |-> Known(5)],
     [s |-> "Native:-0x11", t |-> TNative, v |-> Known(-17)],
     [s |-> "BigUint:0x1234", t |-> TBig(13), v |-> [Known(4660) EXCEPT !.bits = 13]],
+    \* constants whose bit length is a multiple of the limb size (96), and one just above
+    [s |-> "BigUint:0x800000000000000000000000", t |-> TBig(96), v |-> OpaqueBits(96)],
+    [s |-> "BigUint:0xFFFFFFFFFFFFFFFFFFFFFFFFFFFFFFFFFFFFFFFFFFFFFFFF", t |-> TBig(192), v |-> OpaqueBits(192)],
+    [s |-> "BigUint:0x1000000000000000000000000", t |-> TBig(97), v |-> OpaqueBits(97)],
     [s |-> "0xFF0A00", t |-> TBytes(3), v |-> KnownBytes(<<255, 10, 0>>)],
     [s |-> "Jubjub:GENERATOR", t |-> TPoint, v |-> Opaque],
     [s |-> "Jubjub:IDENTITY", t |-> TPoint, v |-> Opaque],
